@@ -17,6 +17,7 @@ func checkC04(c *Ctx) {
 	} else {
 		c.runStoreMC(exact2, "OpsAll", "MCKeys", 6, "exact x exact")
 	}
+	c.runDenseImplMC("IK_ExactExact", 2, "dense x dense (array level)")
 	// exhaustive tree, small alphabet
 	c.runStoreGen(&StoreGen{Kinds: exact2, Keys: []int{0, 2, 4}, Q: 4, Weights: []int{0, 6}, Factors: [][2]int{{3, 2}},
 		Repeats: []int{33}, Ops: opsC04, Depth: c.pick(3, 4)}, c.pick(6, 12), "exhaustive tree")
@@ -27,5 +28,8 @@ func checkC04(c *Ctx) {
 	// direction B: recorded executions of the real stores validated by TLC
 	c.runStoreTraces(c.pick(24, 200), traceGenOpts{Events: c.pick(400, 2000), Kinds: []string{"dense", "sparse", "paged"},
 		Ops: []string{"Add", "Add", "AddWithCount", "AddWithCount", "AddBin", "AddRepeat", "Merge", "CopyTo", "Clear", "Reweight", "EncDec", "Proto", "Read"}}, "non-collapsing stores")
+	// the same kind of recording, narrower index clusters, additionally validated at array level (DenseImpl.tla, real overhead 64)
+	c.runStoreTraces(c.pick(12, 100), traceGenOpts{Layout: true, MaxWidth: 60, Events: c.pick(300, 1500), Kinds: []string{"dense", "dense", "sparse", "paged"},
+		Ops: []string{"Add", "AddWithCount", "AddBin", "AddRepeat", "Merge", "CopyTo", "Clear", "Reweight", "EncDec", "Proto", "Read"}}, "dense stores, array layout")
 }
 
